@@ -99,6 +99,57 @@ pub fn run_real(kind: usize, h: &[Ev], t0: i64, unit: Unit) -> Vec<(u32, Obs)> {
     out
 }
 
+/// Two streams (of the same or of different kinds) alive at once and fed in lockstep, the second
+/// one's clock offset by 0.13 s: each must give what it gives alone. Shared state - a `static` or
+/// thread-local "previous sample time" - breaks this.
+pub fn twin_history(ka: usize, kb: usize, ha: &[Ev], hb: &[Ev], e: &mut Eng) -> u64 {
+    let (t0a, t0b) = (-3 * S, -3 * S + 130_000_000);
+    let n = ha.len().min(hb.len());
+    let r = guard(|| {
+        let solo_a = run_real(ka, &ha[..n], t0a, natural_unit(ka));
+        let solo_b = run_real(kb, &hb[..n], t0b, natural_unit(kb));
+        let (mut a, mut b) = (make(ka), make(kb));
+        let (mut ta, mut tb) = (t0a, t0b);
+        let mut both = Vec::with_capacity(n);
+        let conv = |ev: &Ev, t: i64, k: usize| match ev {
+            Ev::P(_, v) => Ok(Some(Datum::new(Time(t), Quantity::new(*v, natural_unit(k))))),
+            Ev::N(_) => Ok(None),
+            Ev::Er(_, c) => Err(err_val(*c)),
+        };
+        for k in 0..n {
+            ta += ev_dt(&ha[k]);
+            a.feed(conv(&ha[k], ta, ka));
+            let ua = a.update();
+            tb += ev_dt(&hb[k]);
+            b.feed(conv(&hb[k], tb, kb));
+            let ub = b.update();
+            let gb = b.get();
+            let ga = a.get();
+            both.push(((ua, ga), (ub, gb)));
+        }
+        (solo_a, solo_b, both)
+    });
+    e.checks += n as u64;
+    match r {
+        Err(m) => e.violation("calc:twins-panic", n, || format!("{} on [{}] and {} on [{}] in lockstep panicked: {}", KINDS[ka], show(ha), KINDS[kb], show(hb), m)),
+        Ok((sa, sb, both)) => {
+            for k in 0..n {
+                if both[k].0 != sa[k] || both[k].1 != sb[k] {
+                    e.violation(&format!("calc:{}:instances-interfere", KINDS[if both[k].0 != sa[k] { ka } else { kb }]), k + 1, || {
+                        format!(
+                            "{} fed [{}] and {} fed [{}] in lockstep: at step {} they give {} and {} but alone they give {} and {}",
+                            KINDS[ka], show(&ha[..=k]), KINDS[kb], show(&hb[..=k]), k, both[k].0 .1.show(), both[k].1 .1.show(), sa[k].1.show(), sb[k].1.show()
+                        )
+                    });
+                    break;
+                }
+            }
+            e.outcome(h64(&both));
+        }
+    }
+    (4 * n) as u64
+}
+
 /// Reference models. Each returns, per event, the expected present value (up to three
 /// components) or None for "absent" (for integral/derivative an erroring input makes get()
 /// return that error, which is C05's clause; here only Some/None matters at P and N events).
@@ -536,11 +587,39 @@ pub fn run(ctx: &Ctx) -> Vec<Eng> {
             });
         }
     }
+    let tdepth = if ctx.thorough { 4 } else { 3 };
+    let mut e3d = Eng::new(
+        "c10-interleaved-twins",
+        "two streams alive at once and fed in lockstep (the second one's clock 0.13 s ahead): every history of `depth` events over {P(0.5 s,1), P(1 s,-2), P(0.25 s,3), N, E1} for the first against 6 partner histories of the second, for every ordered pair of the 5 stream kinds: every update result and output of each must equal its solo run (state shared between instances breaks this)",
+        &format!("depth {} => 5^{} histories x 6 partners x 25 kind pairs", tdepth, tdepth),
+    );
+    {
+        let tsym = [Ev::P(S / 2, 1.0), Ev::P(S, -2.0), Ev::P(S / 4, 3.0), Ev::N(S), Ev::Er(S, 1)];
+        let partners: Vec<Vec<usize>> = vec![vec![0, 0, 0, 0], vec![1, 2, 0, 1], vec![0, 3, 1, 2], vec![4, 0, 1, 0], vec![2, 2, 1, 1], vec![3, 3, 0, 0]];
+        let partners = &partners;
+        let nh = ipow(5, tdepth);
+        for ka in 0..5 {
+            for kb in 0..5 {
+                par(&mut e3d, nh * partners.len() as u64, 64, budget, |idx, e| {
+                    let (ia, ip) = (idx / partners.len() as u64, (idx % partners.len() as u64) as usize);
+                    let mut da = vec![0usize; tdepth];
+                    decode(ia, 5, &mut da);
+                    let ha: Vec<Ev> = da.iter().map(|&i| tsym[i]).collect();
+                    let hb: Vec<Ev> = partners[ip][..tdepth].iter().map(|&i| tsym[i]).collect();
+                    e.executions += 1;
+                    e.states += 1;
+                    e.nontrivial += 1;
+                    e.max_depth = e.max_depth.max(2 * tdepth as u64);
+                    e.transitions += twin_history(ka, kb, &ha, &hb, e);
+                });
+            }
+        }
+    }
     let mut e4 = Eng::new(
         "c10-units",
         "49 input units (7x7 grid) x 4 short histories x 5 streams: output unit of integral/derivative = input unit times/over seconds; to-state converters panic exactly when a present sample is wrongly dimensioned (dimension-checked build); non-trivial = unit differs from the stream's natural one",
         "49 x 4 x 5",
     );
     units(&mut e4);
-    vec![e1, e2, e3, e3b, e3c, e4]
+    vec![e1, e2, e3, e3b, e3c, e3d, e4]
 }
